@@ -13,6 +13,9 @@
 using namespace draco;
 #define NC 3
 #define NE 3
+#ifdef SMALL_POSITIONS   // known finding F13 excluded: positions of at most 8 bits cannot overflow the int64 products
+#define POS_BITS 8
+#endif
 struct LiteTable {
   uint32_t c2v[NC];
   CornerIndex Opposite(CornerIndex) const { return kInvalidCornerIndex; }          // a single triangle: all edges open
